@@ -57,6 +57,13 @@ func c02Values(cfg *core.Config) []MV {
 		} {
 			add(m)
 		}
+		// look-alikes across kinds and offsets (same text / same numbers, different denotation)
+		for _, m := range []MV{core.MStr("a"), core.MBytesOff(0, 97), core.MArr(num(97)), core.MStrOff("a", 3), core.MBytesOff(3, 97), core.MArrOff(3, num(97)),
+			core.MDict(num(0), num(97)), relOf([]string{"@", "x"}, []float64{0, 97}), mset(num(97)), mset(mset(num(97))), mset(mset(mset(num(97)))),
+			mset(mset()), mset(mset(mset())), mset(mtup()), mset(mset(mtup())), core.MStr("ab"), core.MBytesOff(0, 97, 98), core.MArr(num(97), num(98)),
+			core.MStrOff("ab", 1), mtup("a", core.MStr("a")), mtup("a", core.MBytesOff(0, 97)), num(97), mset(core.MStr("a")), mset(core.MBytesOff(0, 97))} {
+			add(m)
+		}
 		r := core.NewRng(cfg.Seed, 202)
 		for i := 0; i < cfg.Pick(40, 600); i++ {
 			add(randValue(r, i%5 < 3, 1))
@@ -69,6 +76,9 @@ func (c02) NumCases(cfg *core.Config) int { return len(c02Values(cfg)) }
 
 // c02Contexts are congruence contexts f(x); z is a companion value derived from the model value.
 var c02Contexts = []string{"{x}", "(k: x)", "[x, 1]", "{x: 1}", "x | z", "x & z", "x &~ z", "z with x", "x => .", "x where true", "x count", "{x, z} count"}
+
+// c02Nested are placements of two different values a, b that must not make them equal.
+var c02Nested = []string{"{A} = {B}", "{A, 1} = {B, 1}", "(k: A) = (k: B)", "[A] = [B]", "{A: 1} = {B: 1}", "{{A}} = {{B}}", "{A} <: {{B}}"}
 
 func c02Operands(m MV) []Operand {
 	var ops []Operand
@@ -178,6 +188,11 @@ func (c02) RunCase(cfg *core.Config, i int) core.CaseResult {
 			j.report("C02.dict-key", "{a:1}(b)", wrong, "", "", hz, fmt.Sprintf("%s => %s, want %v", desc, core.Src(d), wantN), map[string]string{"expr": desc})
 		}
 		if !same {
+			// nested placement: values that differ must still differ when buried one level down
+			// (the trie library trusts member hashes, so a weak Hash shows up exactly here)
+			for _, ctx := range c02Nested {
+				evalBool("C02.eq-nested", ctx, strings.ReplaceAll(strings.ReplaceAll(ctx, "A", "a"), "B", "b"), a, b, false, hz, wrong)
+			}
 			return
 		}
 		// printed form
